@@ -1,5 +1,6 @@
 """C14 - nucleation quantities obey classical nucleation theory for every site type.
 
+R14.7 boundary-site barrier at a clamped radius agrees with the bulk branch (sibling agreement, sympy)
 R14.1 T-FRESH on NucleationBarrierParameters (lazy caches discovered from the code follow gamma, gbEnergy, site type)
 R14.2 zero-rate completeness of the per-phase record (= C02 R2.4)
 R14.3 available sites returned through max(.,0); occupied sites summed over all phases of the same site type
@@ -120,10 +121,23 @@ def r145(repo, ctx):
                 env[pn[2]] = R
             expr = ToSympy(atoms=atoms, env=env).tr(inline(rets[0].value, single_defs(f)))
         except (AnalysisError, IndexError) as e:
+            rv = inline(rets[0].value, single_defs(f)) if rets else None
+            if isinstance(rv, ast.Call) and (U.call_name(rv) or '') in ('np.clip', 'np.maximum', 'np.fmax', 'max', 'np.abs', 'np.absolute', 'abs', 'np.where', 'np.minimum'):
+                # the classical expression is post-processed: the rate code reads a barrier of exactly 0 as "no nucleation"
+                ctx.violation('R14.5', NUC, f'NucleationBarrierParameters.{meth}', rets[0], f'{meth} returns {U.src(rv)[:70]}: the classical expression is clipped / rectified, and a barrier of '
+                              'exactly 0 is the "no nucleation" marker of the rate functions - at high driving force the rate drops to zero instead of rising', construct=f'{meth}: {U.call_name(rv)} wrapper')
+                continue
             ctx.undecided('R14.5', NUC, f'NucleationBarrierParameters.{meth}', f, f'formula extraction failed: {e}')
             continue
         expr = expr.subs(A, 2 * k * B + 3 * Cc)
         if meth == 'Gcrit':
+            # R14.7 sibling agreement at a radius that is not the critical one (raised to the minimum radius): the bulk branch of
+            # nucleationBarrier evaluates 4 pi/3 gamma R^2; the boundary-site barrier must be that times volumeFactor/(4 pi/3)
+            at_R = sp.simplify(expr - Cc * gam * R**2)
+            ctx.check(at_R == 0, 'R14.7', NUC, 'NucleationBarrierParameters.Gcrit', rets[0],
+                      'at any radius (also one raised to the minimum radius) the boundary-site barrier is the spherical one, 4 pi/3 gamma R^2, times volumeFactor/(4 pi/3), as the bulk branch computes it',
+                      f'at a radius raised to the minimum radius the boundary-site barrier is {sp.simplify(expr)} instead of c*gamma*R**2 (bulk branch: 4 pi/3 gamma R^2): it falls with the driving force, '
+                      'passes through exactly 0 (read as "no nucleation") and turns negative (exp(-G*/kT) > 1)', construct='Gcrit: barrier at a clamped radius')
             expr = expr.subs(R, 2 * gam / dG)
         diff = sp.simplify(expr - want)
         ctx.check(diff == 0, 'R14.5', NUC, f'NucleationBarrierParameters.{meth}', rets[0],
